@@ -29,12 +29,13 @@ type c05Timing struct {
 	lastPropAt int64  // its latest own proposal ...
 	lastPropH  uint32 // ... and that proposal's height
 	maxRT      int64  // upper bound of every round trip it can have measured
+	early      map[string]bool // payloads (hash) that reached this incarnation while it was at a lower height
 }
 
 func (o *OracleC05) timing(n *Node) *c05Timing {
 	t := o.tm[n.id]
 	if t == nil || t.inc != n.inc {
-		t = &c05Timing{inc: n.inc, enterAt: map[uint32]int64{}}
+		t = &c05Timing{inc: n.inc, enterAt: map[uint32]int64{}, early: map[string]bool{}}
 		o.tm[n.id] = t
 	}
 	return t
@@ -108,9 +109,16 @@ func (o *OracleC05) AfterCall(n *Node, st *Step) {
 	// future-message cache for the node's height (after the call) and a view ABOVE the node's
 	// view cannot have been used yet, so it must still be there when the call returns
 	// (change-view requests are handled at once whatever their view and are not cached).
+	if st.Op == OpReceive && st.P != nil && !st.Probe && st.P.H > st.PreBI {
+		o.timing(n).early[st.P.Hash().String()] = true
+	}
 	if o.preCache != nil && !d.BlockSent() {
+		// (C05 speaks about payloads received early for a NEW HEIGHT: only cache entries that
+		// reached the node while it was at a lower height are judged here; what a node does with
+		// payloads of a future view of the height it is already in is C09's matter.)
 		// (the cache keeps one payload per kind and validator: a later payload of the same
 		// validator may take the slot over, the slot must not become empty)
+		early := o.timing(n).early
 		post := map[string]bool{}
 		for _, e := range d.VerifState().Cache {
 			if e.Height == d.BlockIndex {
@@ -118,7 +126,7 @@ func (o *OracleC05) AfterCall(n *Node, st *Step) {
 			}
 		}
 		for _, e := range o.preCache {
-			if e.Height == d.BlockIndex && e.View > d.ViewNumber && e.Kind != "chViews" && !post[fmt.Sprintf("%s/%d", e.Kind, e.Index)] {
+			if e.Height == d.BlockIndex && e.View > d.ViewNumber && e.Kind != "chViews" && early[e.Hash] && !post[fmt.Sprintf("%s/%d", e.Kind, e.Index)] {
 				o.viol(n, "cached_future_view_payload_lost", "height %d view %d: %s took the cached %s payload of validator %d for view %d out of the future-message cache although the node has not reached that view", d.BlockIndex, d.ViewNumber, st.describe(), e.Kind, e.Index, e.View)
 				return
 			}
@@ -172,7 +180,7 @@ func (o *OracleC05) AfterCall(n *Node, st *Step) {
 		case dbft.CommitType:
 			kind = "commit"
 		}
-		future := p.H > st.PreBI || (p.H == st.PreBI && p.V > st.PreV && p.T != dbft.ChangeViewType)
+		future := p.H > st.PreBI // (a future view of the current height is not C05's matter)
 		// (a pre-commit for a height at which anti-MEV is off is no part of the protocol: it may be
 		// dropped at once or at replay)
 		if p.T == dbft.PreCommitType && !s.sc.amevAt(p.H) {
@@ -181,7 +189,9 @@ func (o *OracleC05) AfterCall(n *Node, st *Step) {
 		if kind != "" && future && st.PostBI == st.PreBI && int(p.Idx) < len(s.sc.ValsAt(p.H)) {
 			found := false
 			for _, e := range d.VerifState().Cache {
-				if e.Height == p.H && e.Kind == kind && e.Index == p.Idx && e.Hash == p.Hash().String() {
+				// (one slot per kind and validator: which of several payloads of one validator
+				// the cache keeps is the library's choice, the slot must not be empty)
+				if e.Height == p.H && e.Kind == kind && e.Index == p.Idx {
 					found = true
 				}
 			}
@@ -216,12 +226,14 @@ func (o *OracleC05) AfterCall(n *Node, st *Step) {
 				last = &st.Outs[i]
 			}
 		}
-		ref := refTimers(s.sc.TPBAt(d.BlockIndex), len(d.Validators))
+		ref := refTimers(s.sc.TPBAt(d.BlockIndex), s.sc.MaxTPBAt(d.BlockIndex), len(d.Validators))
 		if !seen && last != nil && last.H == d.BlockIndex && last.V == d.ViewNumber && (!ref.ok || int(d.ViewNumber) >= len(ref.backV) || ref.backV[d.ViewNumber] == 0) {
 			s.note("no_timer_reference")
 		} else if !seen && last != nil && last.H == d.BlockIndex && last.V == d.ViewNumber {
+			// (the round-trip estimator lives across heights by design: the wait may be shorter
+			// by what this incarnation can have measured, see the wave-12 rule below)
 			full := ref.backV[d.ViewNumber]
-			if last.D < full {
+			if int64(last.D) < int64(full)-o.timing(n).maxRT {
 				o.viol(n, "timer_shortened_without_previous_proposal", "height %d view %d: the node never held a proposal of height %d, yet the timer armed on entering the view is %v instead of the full %v", d.BlockIndex, d.ViewNumber, d.BlockIndex-1, last.D, full)
 				return
 			}
@@ -346,14 +358,17 @@ func (o *OracleC05) AfterCall(n *Node, st *Step) {
 				}
 			}
 			if last != nil && last.H == tip+1 && last.V == 0 && !d.CommitSent() && !d.PreCommitSent() && !d.RequestSentOrReceived() {
-				ref := refTimers(s.sc.TPBAt(tip+1), nv)
+				ref := refTimers(s.sc.TPBAt(tip+1), s.sc.MaxTPBAt(tip+1), nv)
 				full := ref.prim0
 				if s.sc.IndexAt(tip+1, n.ident) != primaryOf(tip+1, 0, nv) {
 					full = ref.back0
+					if st.Op == OpReset {
+						full = ref.back0R
+					}
 				}
 				if !ref.ok {
 					s.note("no_timer_reference")
-				} else if last.D < full {
+				} else if int64(last.D) < int64(full)-o.timing(n).maxRT {
 					o.viol(n, "timer_shortened_by_older_height", "height %d: the node never held a proposal of height %d, yet the timer armed by its initialisation is %v instead of the full %v", tip+1, tip, last.D, full)
 					return
 				}
@@ -375,10 +390,13 @@ func (o *OracleC05) AfterCall(n *Node, st *Step) {
 			}
 		}
 		if last != nil && last.H == tip+1 && last.V == 0 && !d.CommitSent() && !d.PreCommitSent() && !d.RequestSentOrReceived() {
-			ref := refTimers(s.sc.TPBAt(tip+1), nv)
+			ref := refTimers(s.sc.TPBAt(tip+1), s.sc.MaxTPBAt(tip+1), nv)
 			full := ref.prim0
 			if s.sc.IndexAt(tip+1, n.ident) != primaryOf(tip+1, 0, nv) {
 				full = ref.back0
+				if st.Op == OpReset {
+					full = ref.back0R
+				}
 			}
 			if !ref.ok {
 				s.note("no_timer_reference")
@@ -456,10 +474,10 @@ func (o *OracleC05) AfterCall(n *Node, st *Step) {
 			}
 		}
 		if at, ok := tmg.enterAt[tip]; ok && st.Op == OpReset && last != nil && last.H == tip+1 && last.V == 0 && !d.CommitSent() && !d.PreCommitSent() && !d.RequestSentOrReceived() {
-			ref := refTimers(s.sc.TPBAt(tip+1), nv)
+			ref := refTimers(s.sc.TPBAt(tip+1), s.sc.MaxTPBAt(tip+1), nv)
 			full := ref.prim0
 			if s.sc.IndexAt(tip+1, n.ident) != primaryOf(tip+1, 0, nv) {
-				full = ref.back0
+				full = ref.back0R
 			}
 			least := int64(full) - (s.now - at) - tmg.maxRT
 			if ref.ok && least > 0 {
